@@ -39,10 +39,12 @@ Actions == {"Reset", "Deform", "SupRot", "RefRot", "Update", "ReUpdate", "Commit
 ClauseNames == {"rest_energy", "rest_stress", "objective", "isotropic", "sym_stress",               \* C08
                 "irreversible", "isochoric", "yield_consistent", "minimises", "idempotent",
                 "commit_energy", "commit_stress",                                                   \* C09
-                "dissipation_nonneg", "isochoric_v", "relax_monotone", "limit_fast", "limit_slow"}  \* C11
+                "dissipation_nonneg", "isochoric_v", "relax_monotone", "limit_fast", "limit_slow",  \* C11
+                "stress_matches_energy", "tangent_matches_energy"}                                  \* C10
 
 NullObs == [W |-> 0, S |-> 0, symS |-> TRUE, eIn |-> 0, eOut |-> 0, isoch |-> TRUE, ye |-> "inside",
-            mini |-> TRUE, same |-> TRUE, Wneq |-> 0, diss |-> "zero", lim |-> "EQ"]
+            mini |-> TRUE, same |-> TRUE, Wneq |-> 0, diss |-> "zero", lim |-> "EQ",
+            dS |-> "NA", dT |-> "NA"]
 
 -----------------------------------------------------------------------------
 (* Which calls a caller may make.  The point is initialised by Reset.  Rotations are   *)
@@ -85,16 +87,19 @@ Step(a, o) == Enabled(a) /\ Ctl(a) /\ Adopt(a, o)
 SymIf == IF model.finiteDef THEN {"sym_stress"} ELSE {}
 RI(s) == IF model.rateIndep THEN s ELSE {}
 
+\* C10: at the state every action leaves behind (current F, committed internal state, current dt) the stress and the
+\* tangent delivered by the library's differentiation rules are the derivatives of the energy density itself
+Deriv == {"stress_matches_energy", "tangent_matches_energy"}
 App(a) ==
-  CASE a = "Reset"     -> {"rest_energy", "rest_stress"}
-    [] a = "Deform"    -> SymIf
-    [] a = "SupRot"    -> {"objective"} \cup SymIf
-    [] a = "RefRot"    -> {"isotropic"} \cup SymIf
-    [] a = "Update"    -> {"irreversible", "isochoric", "yield_consistent", "minimises"} \cup SymIf
+  CASE a = "Reset"     -> {"rest_energy", "rest_stress"} \cup Deriv
+    [] a = "Deform"    -> SymIf \cup Deriv
+    [] a = "SupRot"    -> {"objective"} \cup SymIf \cup Deriv
+    [] a = "RefRot"    -> {"isotropic"} \cup SymIf \cup Deriv
+    [] a = "Update"    -> {"irreversible", "isochoric", "yield_consistent", "minimises"} \cup SymIf \cup Deriv
     [] a = "ReUpdate"  -> {"irreversible", "isochoric", "yield_consistent"} \cup RI({"idempotent"})
-    [] a = "Commit"    -> RI({"commit_energy", "commit_stress"}) \cup SymIf
-    [] a = "Hold"      -> {"dissipation_nonneg", "isochoric_v", "relax_monotone"} \cup SymIf
-    [] a = "Load"      -> {"dissipation_nonneg", "isochoric_v"} \cup SymIf
+    [] a = "Commit"    -> RI({"commit_energy", "commit_stress"}) \cup SymIf \cup Deriv
+    [] a = "Hold"      -> {"dissipation_nonneg", "isochoric_v", "relax_monotone"} \cup SymIf \cup Deriv
+    [] a = "Load"      -> {"dissipation_nonneg", "isochoric_v"} \cup SymIf \cup Deriv
     [] a = "LimitFast" -> {"limit_fast"}
     [] a = "LimitSlow" -> {"limit_slow"}
 
@@ -116,6 +121,10 @@ Holds(c, o) ==
     [] c = "relax_monotone"     -> o.Wneq <= Wneq
     [] c = "limit_fast"         -> o.lim = "EQ"
     [] c = "limit_slow"         -> o.lim = "EQ"
+    \* "NA": not measured (other properties' runs), or the difference quotient of the energy was not trustworthy there
+    \* (stencil straddles the yield switch, or its own two-step error estimate is too large)
+    [] c = "stress_matches_energy"  -> o.dS # "NE"
+    [] c = "tangent_matches_energy" -> o.dT # "NE"
 
 Good(a, o) == \A c \in App(a) : Holds(c, o)
 
